@@ -60,10 +60,8 @@ Proof.
   inversion H. reflexivity.
 Qed.
 
-(* imports a file's own statements record on success: the importable modules, in order *)
-Definition stmt_imports (env : fenv) (st : stmt) : list string :=
-  match st with SImport m _ _ _ => if str_in m (e_modules env) then [m] else [] | _ => [] end.
-Definition imports_of (env : fenv) (gs : list (list stmt)) : list string := flat_map (flat_map (stmt_imports env)) gs.
+(* (stmt_imports / imports_of -- the importable modules of a file's own import statements, in order -- are defined
+   in Proofs/StmtProofs.v) *)
 
 (* ================================================================== *)
 (* flattening to any depth, with the include tree                     *)
@@ -236,7 +234,7 @@ Proof.
         -- cbn [fst snd]. split; assumption.
       * cbn [fst snd]. split; [exact Hs|exact R].
   - inversion Hpg; subst gs. rewrite flatten_both_nil in Hfl. inversion Hfl; subst flat trees.
-    cbn [consume fst snd res_sim]. split; [apply sim_add_imports_l; exact Hs|exact I].
+    cbn [consume fst snd res_sim]. split; [exact Hs|exact I].
   - discriminate.
 Qed.
 
@@ -409,7 +407,8 @@ Proof.
       destruct (sm_get_match (to_key sel) (t_reg s)) as [| |k [c|]]; try apply frame3_refl. apply IH; exact Hinc.
     + destruct (str_in m (e_modules env)).
       * destruct (register_mod env m s) as [s0|e] eqn:Hreg; [|apply frame3_refl].
-        eapply frame3_trans; [apply frame_gen_frame3; eapply register_mod_frame_gen; exact Hreg|apply IH; exact Hinc].
+        eapply frame3_trans; [apply frame_gen_frame3; eapply register_mod_frame_gen; exact Hreg|].
+        eapply frame3_trans; [apply (frame3_add_imports env [m] s0)|apply IH; exact Hinc].
       * destruct (sk_truthy sk); [apply IH; exact Hinc|apply frame3_refl].
     + pose proof (Hinc (str_of_value v) s) as F. destruct (inc (str_of_value v) s) as [s0 r0]. cbn [fst] in F.
       destruct r0 as [t|e]; [|exact F].
@@ -423,7 +422,7 @@ Theorem parse_tokens_frame : forall fuel env sk fname o pending ts s im ic,
 Proof.
   induction fuel as [|f IH]; intros env sk fname o pending ts s im ic; [apply frame3_refl|].
   rewrite parse_tokens_S.
-  destruct (parse_statement o pending ts) as [[[[stmts ts1] p1]|]|e]; [|apply frame3_add_imports|apply frame3_refl].
+  destruct (parse_statement o pending ts) as [[[[stmts ts1] p1]|]|e]; [|apply frame3_refl|apply frame3_refl].
   destruct (resolve_group s sk fname stmts) as [a|e]; [|apply frame3_refl].
   assert (Hinc : forall name s0, frame3 env s0 (fst (inc_of f env sk name s0))).
   { intros name s0. unfold inc_of. destruct (resolve_file env name) as [[full gf]|]; [|apply frame3_refl].
